@@ -138,6 +138,22 @@ ROUND8 = {
  "C20": "One probe body in ten has 2500-5500 samples (several parser blocks).",
 }
 
+ROUND9 = {
+ "C02": "Plus 2/8 cases on the REAL coordinator and sidecar binaries (engine E7): a job with multi-valued params, a non-canonical path and relabel rules that rewrite path, a param and a label; the labels from the generated file and the request arriving at each target are compared with the vendored Prometheus run on the coordinator's file.",
+ "C03": "One closed-loop case in six runs in K8s mode next to two more StatefulSets of the same selector.",
+ "C05": "The closed loop also follows moves whose in-transfer mark was lost (destination given the target while the in-sync source goes on listing it), with a directed case that drops the marking POST in the cycle the move begins.",
+ "C08": "Plus 1/4 closed loops over real api.Get/api.Post with one shard of 7000-16000 targets (status answer above 1.5 MiB) that is reachable but out of sync for two cycles.",
+ "C11": "A third of the assigned targets carry labels under the reserved prefix, their own interval/timeout, extra params and temporary labels; every assigned label must be in the generated static entry.",
+ "C12": "Per shape, targets that pick the content coding from the request's Accept-Encoding (deflate, else gzip, else identity).",
+ "C14": "The real-process cases also push a configuration with a drop rule while the stub Prometheus answers 500 to /-/reload; the counts of the following scrapes must be those under the rules of the configuration the sidecar reports.",
+ "C15": "Same-URL twins with a 0.9-1.5 KB label value that differ in a label sorting first (or last).",
+ "C16": "On the real sidecar process a push of another version fails in Prometheus' reload and the coordinator pushes its own version if the reported hash differs; a shard that reports the coordinator's hash must have the generated file of that version.",
+ "C17": "Monitor 5 (2/16 cases): on a table of 200-350 jobs x 80-140 targets a reload that keeps every job is overlapped six times by an update sent 0-40 ms after the explorer's reload callback begins; judged after both returned.",
+ "C18": "Plus second listings through the SAME replicas manager after every pod got another IP, pods without an IP got one and pod 0 lost its IP.",
+ "C19": "Hostile replicas include shards that answer their status but not their runtime info.",
+ "C20": "Plus 1/4 flood cases: more than 10000 + workers targets asked for in one period while every probe is held at the target.",
+}
+
 NOT_YET = {
 }
 
@@ -166,7 +182,7 @@ def main():
             "evidence_file": "/verif/evidence/%s.json" % pid,
             "replay_cmd_template": "./bin/vcheck replay {path}",
             "engine": c["engine"],
-            "level_claimed": {"category": c["level"], "text": (c["text"] + " " + ROUND8.get(pid, "")).strip(), "design_ref": c["ref"]},
+            "level_claimed": {"category": c["level"], "text": (c["text"] + " " + ROUND8.get(pid, "") + " " + ROUND9.get(pid, "")).strip(), "design_ref": c["ref"]},
             "level_note": c["note"],
             "technique": c["technique"],
         })
@@ -193,9 +209,9 @@ def main():
              "kind_free_text": "coordinator-side pipeline wired as cmd/kvass/coordinator.go; loopback HTTP targets; porcupine; race-detector pass"},
             {"name": "E6 kubernetes fake", "path": "harness/internal/e6", "serves_properties": ["C18", "C19"],
              "kind_free_text": "real kubernetes replicas/shard manager on client-go fake clientset; action log as event log; scripted StatefulSet lives with time passing through the verif hook"},
-            {"name": "E7 real processes", "path": "harness/internal/e7", "serves_properties": ["C03", "C04", "C06"],
+            {"name": "E7 real processes", "path": "harness/internal/e7", "serves_properties": ["C02", "C03", "C04", "C06"],
              "kind_free_text": "real kvass coordinator binary (static shard file, own discovery manager, explorer, API) + real kvass sidecar binaries + simulated Prometheus per shard + target farm; cycles counted and faults injected at a reverse proxy in front of the sidecar APIs"},
-            {"name": "E2 closed loop", "path": "harness/internal/e2", "serves_properties": ["C01", "C03", "C05", "C06", "C07", "C19"],
+            {"name": "E2 closed loop", "path": "harness/internal/e2", "serves_properties": ["C01", "C03", "C05", "C06", "C07", "C08", "C19"],
              "kind_free_text": "real coordinator + real sidecars over loopback HTTP, simulated Prometheus/StatefulSet/target farm, stepped cycles, fault wrappers; K8s mode: the simulated pods are listed and scaled by the real Kubernetes managers on a client-go fake; soak mode in a child process with a lowered descriptor limit"},
             {"name": "E3 sidecar", "path": "harness/internal/e3", "serves_properties": ["C09", "C10", "C12", "C13", "C14"],
              "kind_free_text": "one real sidecar driven through its HTTP API and proxy; in-memory and raw-TCP targets; RLIMIT_FSIZE crash child; real binary under SIGKILL; real binary behind a scripted slow target and a stub Prometheus with a settable head count"},
